@@ -25,6 +25,40 @@ def R(x):
     return to_z3(x, "real")
 
 
+def normal_scalars(rng):
+    """every standard-normal scalar drawn, in stream order (whatever the shapes of the calls); None when the generator was
+    also asked for another kind of variate"""
+    zs = []
+    for d in rng.draws:
+        if d[0] != "standard_normal":
+            return None
+        zs += list(d[2].data) if isinstance(d[2], Tensor) else [d[2]]
+    return zs
+
+
+def assign_draws(p, at, zs, T):
+    """which drawn scalar each momentum component uses: row-major unless the code provably pairs them otherwise (a
+    one-to-one pairing is what the property asks for, not an order)"""
+
+    def proves(a, d, zj):
+        s = z3.Solver()
+        s.set("timeout", 2000)
+        s.add(*p.pc)
+        s.add(R(at.momenta.get((a, d))) != R(zj) * F_sqrt(R(at.masses.get((a,))) * (T * kB)))
+        return s.check() == z3.unsat
+    comps = [(a, d) for a in range(at.k) for d in range(3)]
+    if all(proves(a, d, zs[3 * a + d]) for a, d in comps[:2]):
+        return None
+    used, out = set(), []
+    for a, d in comps:
+        j = next((j for j in range(len(zs)) if j not in used and proves(a, d, zs[j])), None)
+        if j is None:
+            return None
+        used.add(j)
+        out.append(zs[j])
+    return Tensor((at.k, 3), out)
+
+
 def build(S, tier):
     meta = {"assumptions": [
         "atom count of the integrator/thermostat proofs is k=2 explicit atoms (every coordinate, momentum, mass, dt, T symbolic; forces uninterpreted functions of all coordinates): bounded in k, unbounded in values",
@@ -166,13 +200,14 @@ def build(S, tier):
                 continue
             v = p.value
             at, rng, T = v["atoms"], v["rng"], v["T"].t
-            normal = [d for d in rng.draws if d[0] == "standard_normal"]
-            ok = len(rng.draws) == 1 and len(normal) == 1 and isinstance(normal[0][2], Tensor) and normal[0][2].shape == (at.k, 3)
+            zs = normal_scalars(rng)
+            ok = zs is not None and len(zs) == 3 * at.k
             S.prove(f"{MB}#ensures.one_standard_normal_draw_per_component[{tag}]@{i}", ok, kind="ensures", why=str([d[0] for d in rng.draws]))
             if not ok:
                 continue
-            z = normal[0][2]
+            z = Tensor((at.k, 3), zs)
             if not forced:
+                z = assign_draws(p, at, zs, T) or z
                 cl = [R(at.momenta.get((a, d))) == R(z.get((a, d))) * F_sqrt(R(at.masses.get((a,))) * (T * kB)) for a in range(at.k) for d in range(3)]
                 S.prove(f"{MB}#ensures.momenta_are_normal_times_sqrt_m_kT@{i}", z3.And(cl), hyps=p.pc)
             else:
@@ -203,11 +238,11 @@ def build(S, tier):
             continue
         v = p.value
         at, rng, T = v["atoms"], v["rng"], v["T"].t
-        normal = [d for d in rng.draws if d[0] == "standard_normal"]
-        if len(normal) != 1 or not isinstance(normal[0][2], Tensor) or normal[0][2].shape != (3, 3):
+        zs = normal_scalars(rng)
+        if zs is None or len(zs) != 9:
             S.prove(f"{MB}#ensures.one_standard_normal_draw_per_component[forced, FixAtoms]@{i}", False, kind="ensures", why=str([d[0] for d in rng.draws]))
             continue
-        z = normal[0][2]
+        z = Tensor((3, 3), zs)
         m = [R(at.masses.get((a,))) for a in range(3)]
         sq = [F_sqrt(m[a] * (T * kB)) for a in range(3)]
         lem = [sq[a] * sq[a] == m[a] * (T * kB) for a in range(3)]
